@@ -252,6 +252,61 @@ class SymSet:
         return s
 
     __or__ = union
+    __ror__ = union
+
+    def update(self, *others):
+        for o in others:
+            for x in list(o):
+                self.add(x)
+
+    def __ior__(self, o):           # in place, like set
+        self.update(o)
+        return self
+
+    def intersection(self, *others):
+        return SymSet([x for x in self if all(x in o for o in others)])
+
+    __and__ = intersection
+
+    def __iand__(self, o):
+        for x in [x for x in self if x not in o]:
+            self.discard(x)
+        return self
+
+    def difference(self, *others):
+        return SymSet([x for x in self if not any(x in o for o in others)])
+
+    __sub__ = difference
+
+    def __isub__(self, o):
+        for x in list(o):
+            self.discard(x)
+        return self
+
+    def difference_update(self, *others):
+        for o in others:
+            self.__isub__(o)
+
+    def issubset(self, o):
+        return all(x in o for x in self)
+
+    def issuperset(self, o):
+        return all(x in self for x in o)
+
+    __le__ = issubset
+    __ge__ = issuperset
+
+    def copy(self):
+        return SymSet(self)
+
+    def clear(self):
+        self._d = SymDict()
+
+    def pop(self):
+        for x in self:
+            self.discard(x)
+            return x
+        raise KeyError("pop from an empty set")
 
     def __eq__(self, o):
         try:
